@@ -289,7 +289,7 @@ int main(int argc, char **argv) {
                      paramProbe(rng, r, which, (int)(idx % 3));
                    }, 60});
   parts.push_back({"c19.setters", [](uint64_t idx, Rng &rng, CaseResult &r) { setterProbe(rng, r, idx); }, 30});
-  parts.push_back({"c19.nets", [](uint64_t idx, Rng &rng, CaseResult &r) { netProbe(rng, r, idx); }, 60});
+  parts.push_back({"c19.nets", [](uint64_t idx, Rng &rng, CaseResult &r) { netProbe(rng, r, idx); }, 30});
   if (argc == 2 && std::string(argv[1]) == "--count-bad-params") { printf("%zu\n", badParams().size()); return 0; }
   return vf::runMain(argc, argv, parts);
 }
